@@ -239,7 +239,8 @@ TrackerViol(c, out) ==
     LET f == pc[c] IN
     IF ~f.a.valid THEN (IF out = "err" THEN "" ELSE "C14.addtracker.invalid-accepted")
     ELSE IF f.id \in DOMAIN db THEN (IF out = "ok" THEN "" ELSE "C14.addtracker.failed")
-    ELSE IF out = "panic" THEN "C14.panic.addtracker-without-record"
+    \* (a panic without a record is what the code as it is does: explained here, judged where the outcome is known -
+    \*  NoCrash in the exhaustive configs, the call line in the trace specification)
     ELSE IF out = "ok" THEN "C14.addtracker.phantom-record"
     ELSE ""
 TrackerUpd(c, out) ==
